@@ -73,17 +73,17 @@ theorem C02_accept_debits_exact (env : Env) (b : Batch) (best : UInt32) (st : Ta
     unfold EndingClause
     by_cases hdust : d.endingBalance < env.minNoDust
     · simp only [hdust, if_true] at hv ⊢
-      exact ⟨hv.1, by simpa [Pool.Gen.dustEndingStates] using hv.2⟩
+      exact ⟨hv.1, by simpa [Pool.Gen.Batch.dustEndingStates] using hv.2⟩
     · simp only [hdust, if_false] at hv ⊢
       obtain ⟨hs, hi, out, hout, hval, hscr⟩ := hv
-      refine ⟨by simpa [Pool.Gen.recreatedEndingState] using hs, hi, out, hout, hval, hscr, ?_, ?_⟩
+      refine ⟨by simpa [Pool.Gen.Batch.recreatedEndingState] using hs, hi, out, hout, hval, hscr, ?_, ?_⟩
       · intro hne'
         have := hver hne'
         unfold validateVersion at this
-        simpa [supportedVersions, Pool.Gen.validAccountVersions] using this
+        simpa [supportedVersions, Pool.Gen.Batch.validAccountVersions] using this
       · intro hne'
         have := hexp hne'
-        simpa [maxLifetime, Pool.Gen.maxAccountExpiry] using this
+        simpa [maxLifetime, Pool.Gen.Batch.maxAccountExpiry] using this
 
 /-- the same for the manager entry point -/
 theorem C02_orderMatchValidate_debits_exact (env : Env) (b : Batch) (best : UInt32) (pending : Option String)
